@@ -150,6 +150,12 @@ func (e *Enc) call(fr *Frame, ins *ssa.Call, c *ssa.CallCommon, guard T, st *Sta
 		}
 	}
 	if fn == nil {
+		if p, isParam := c.Value.(*ssa.Parameter); isParam && e.contract != nil && e.contract.Opts["dyncalls"] == "uf" {
+			// a function-typed parameter called as a predicate/function of its arguments only
+			e.noteAssumed(e.fnName + ": the function parameter " + p.Name() + " is a pure function of its arguments (opt dyncalls=uf)")
+			setRes(e.pureUF("dyn_"+p.Name(), args, c.Signature()))
+			return
+		}
 		if e.contract != nil && e.contract.Opts["dyncalls"] == "pure" {
 			e.assumed = append(e.assumed, e.fnName+": dynamic call through "+c.Value.Name()+" has no effect on modelled state (opt dyncalls=pure)")
 			setRes(e.freshResults(c.Signature(), ins.Name()))
@@ -163,6 +169,39 @@ func (e *Enc) call(fr *Frame, ins *ssa.Call, c *ssa.CallCommon, guard T, st *Sta
 	// call-site assertions (//@ at call N callee assert E) are evaluated before the call
 	e.callSiteAsserts(fr, fn, args, guard, st, ins.Pos())
 	setRes(e.callStatic(fr, fn, args, bind, guard, st, ins.Pos(), ins.Name()))
+	e.callSiteLets(fr, fn, ins, args, st)
+}
+
+// callSiteLets binds ghost snapshots declared with `at call N callee let name := expr`.
+func (e *Enc) callSiteLets(fr *Frame, fn *ssa.Function, ins *ssa.Call, args []Val, st *State) {
+	if fr == nil || fr.contract == nil || len(fr.contract.Calls) == 0 || fr.depth != 0 || e.discovery > 0 {
+		return
+	}
+	key := fn.RelString(fr.fn.Pkg.Pkg)
+	ord := fr.callOrd[key] // already counted by callSiteAsserts
+	for _, cs := range fr.contract.Calls {
+		if cs.Callee != key || (cs.Ord != 0 && cs.Ord != ord) || len(cs.Lets) == 0 {
+			continue
+		}
+		sc := e.scopeAt(fr, fr.curBlock, fr.curIdx, st)
+		if rv, ok := fr.vals[ins]; ok {
+			if rv.Typ == nil {
+				rv.Typ = ins.Type()
+			}
+			sc.vars["$result"] = rv
+		}
+		for i, a := range args {
+			a.Typ = fn.Params[i].Type()
+			sc.vars["$"+fn.Params[i].Name()] = a
+		}
+		for _, c := range cs.Lets {
+			v := e.eval(sc, c.E, nil)
+			if v.Tup == nil {
+				v = e.nameVal(v, "ghost_"+c.Label)
+			}
+			fr.lets[c.Label] = v
+		}
+	}
 }
 
 func (e *Enc) freshResults(sig *types.Signature, hint string) []Val {
